@@ -9,6 +9,7 @@ import (
 	"encoding/json"
 	"errors"
 	"fmt"
+	"hash/fnv"
 	"io"
 	"mime"
 	"net/http"
@@ -381,12 +382,28 @@ func (a acceptInfo) names(f uint8) bool {
 	return false
 }
 
+var presetContentTypes = [][]string{
+	nil, nil, nil,
+	{"application/json"}, {"text/plain; charset=utf-8"}, {"application/cbor"}, {"application/msgpack"}, {"application/octet-stream"},
+	{"application/json", "application/cbor"},
+}
+
 // checkResponse: the server side dumps v for a request carrying the Accept
 // header, the client side loads the response.
 func checkResponse(t fataler, accept string, info acceptInfo, v any) (chosen uint8, dumped bool) {
 	req := httptest.NewRequest(http.MethodGet, "/thing", nil)
 	req.Header.Set("Accept", accept)
 	rec := httptest.NewRecorder()
+	// something upstream (a middleware, a default) may have put a Content-Type on the writer already: the response
+	// must name the encoding actually used all the same. Chosen by the input, so that a case replays.
+	h := fnv.New32a()
+	_, _ = h.Write([]byte(accept))
+	if preset := presetContentTypes[int(h.Sum32()>>3)%len(presetContentTypes)]; len(preset) > 0 {
+		for _, p := range preset {
+			rec.Header().Add("Content-Type", p)
+		}
+		stats.Class("http_response_writer_with_preset_content_type")
+	}
 	err := dsd.DumpToHTTPResponse(rec, req, v)
 	if err != nil {
 		if info.mustSucceed() {
